@@ -699,6 +699,10 @@ func (db *RockDB) zRemRangeBytes(ts int64, key []byte, keyInfo collVerKeyInfo, o
 	if err != nil {
 		return 0, err
 	}
+	if keyInfo.IsNotExistOrExpired() {
+		// an expired sorted set is dead, nothing can be removed from it
+		return 0, nil
+	}
 	total, err := parseZMetaSize(keyInfo.OldHeader.UserData)
 	if err != nil {
 		return 0, err
@@ -1125,6 +1129,10 @@ func (db *RockDB) internalZRemRangeByLex(ts int64, key []byte, min []byte, max [
 	keyInfo, err := db.getZSetForRangeWithMinMax(ts, key, min, max, false)
 	if err != nil {
 		return 0, err
+	}
+	if keyInfo.IsNotExistOrExpired() {
+		// an expired sorted set is dead, nothing can be removed from it
+		return 0, nil
 	}
 
 	it, err := db.NewDBRangeIterator(keyInfo.RangeStart, keyInfo.RangeEnd, rangeType, false)
